@@ -48,7 +48,7 @@ func customC13(r *Run) ([]Crash, error) {
 		logBase := filepath.Join(r.Work, "racelog")
 		procs := 2
 		if r.Thorough() {
-			procs = 4
+			procs = 3
 		}
 		saved := r.Only
 		r.Only = ""
@@ -82,7 +82,7 @@ func customC13(r *Run) ([]Crash, error) {
 	sub.Only = ""
 	siters := "60"
 	if r.Thorough() {
-		siters = "300"
+		siters = "200"
 	}
 	cr := sub.runShards(sbin, 2, r.timeout(), []string{"-args", "mode=conc,iters=" + siters}, nil)
 	crashes = append(crashes, cr...)
